@@ -462,6 +462,11 @@ func growsOnly(st *ssa.Store, s string) bool {
 // function entry. (Greatest fixpoint: a loop whose every entry establishes
 // the fact and whose body re-establishes it after each kill keeps it.)
 func FlowFact(use ssa.Instruction, establishes func(Fact) bool, kills func(ssa.Instruction) bool) bool {
+	return FlowFactGen(use, establishes, nil, kills)
+}
+
+// FlowFactGen is FlowFact with instructions that establish the fact as well (an event that makes it hold).
+func FlowFactGen(use ssa.Instruction, establishes func(Fact) bool, gens func(ssa.Instruction) bool, kills func(ssa.Instruction) bool) bool {
 	fn := use.Parent()
 	n := len(fn.Blocks)
 	in := make([]bool, n)
@@ -477,6 +482,9 @@ func FlowFact(use ssa.Instruction, establishes func(Fact) bool, kills func(ssa.I
 			}
 			if kills(ins) {
 				st = false
+			}
+			if gens != nil && gens(ins) {
+				st = true
 			}
 		}
 		return st
